@@ -350,11 +350,15 @@ ElemAttribute::startElement(StylesheetExecutionContext& executionContext) const
                     }
                     else
                     {
-                        // Check to see if there's already a namespace declaration in scope...
-                        const XalanDOMString* const     prefix =
-                            executionContext.getResultPrefixForNamespace(attrNameSpace);
+                        // Check to see if the prefix we are going to use is already
+                        // bound to the attribute's namespace in the result.  It is not
+                        // enough that some other prefix is bound to that namespace,
+                        // because the attribute keeps its own prefix.
+                        const XalanDOMString* const     theBoundNamespace =
+                            executionContext.getResultNamespaceForPrefix(nsprefix);
 
-                        if (prefix == 0)
+                        if (theBoundNamespace == 0 ||
+                            equals(*theBoundNamespace, attrNameSpace) == false)
                         {
                             // We need to generate a namespace declaration...
                             const GetCachedString   nsDeclGuard(executionContext);
@@ -655,11 +659,15 @@ ElemAttribute::execute(StylesheetExecutionContext&  executionContext) const
                     }
                     else
                     {
-                        // Check to see if there's already a namespace declaration in scope...
-                        const XalanDOMString* const     prefix =
-                            executionContext.getResultPrefixForNamespace(attrNameSpace);
+                        // Check to see if the prefix we are going to use is already
+                        // bound to the attribute's namespace in the result.  It is not
+                        // enough that some other prefix is bound to that namespace,
+                        // because the attribute keeps its own prefix.
+                        const XalanDOMString* const     theBoundNamespace =
+                            executionContext.getResultNamespaceForPrefix(nsprefix);
 
-                        if (prefix == 0)
+                        if (theBoundNamespace == 0 ||
+                            equals(*theBoundNamespace, attrNameSpace) == false)
                         {
                             // We need to generate a namespace declaration...
                             const GetCachedString   nsDeclGuard(executionContext);
